@@ -27,6 +27,13 @@ CHECKS = {
         "Tied to the code by tree programs with structured query terms run on the real engine and in the model (terms + constraint truth "
         "tables + per-variable constraints() diffed); oracle over the returned LResults: closedness, sharing against an independent Robinson "
         "solver, constraints()/is_constrained() against an independent traversal."),
+    "C04": dict(text="Theorems: permuting the clauses of a disjunction permutes the finite answer list (C04_disj_comm) and leaves the answer set of "
+        "arbitrary infinite/diverging clause lists unchanged for EVERY permutation (C04_disj_comm_mem, C04_disj_perm_mem, C04_disj_perm; pure "
+        "stream algebra, generic state type); permuting ==/!= conjuncts under any hash-iteration orders gives failure in both runs or states "
+        "with exactly the same ground instances (C04_tree, from the C02 invariant). PARTIAL for FD conjuncts and for nesting (named open "
+        "obligations): decided by the correspondence — every program is run as written and under permutations of every conjunction and clause "
+        "list on the real engine (multisets of ground-instance signatures compared, brute-force reference) and each ordering is diffed "
+        "against the model."),
     "C05": dict(text="Full-strength theorems about the Lean model of the depth-first stream nodes (mplus_dfs, bind_dfs, lazy_bind_dfs, pause, delay, "
         "StreamEngine::step, Solver::next) and of DFSConj/DFSDisj/Conde-in-DFS/relation calls, generic in the state type, for ALL goal trees and "
         "ALL solver nesting levels: one step keeps the reference answer list exactly (C05_step); draining delivers it in order (C05_next); whenever "
